@@ -161,6 +161,26 @@ def check_send(run, F, fn, kind):
             oksrc = has_sub(pt, lambda x: is_call(x, srcname) and has_sub(x[2][0], lambda y: y is st or (is_call(y, send_name))))
             run.ob("R-HTTPSHAPE", "%s: parser reads the response body stream" % short, oksrc, "parser source: %s" % tshow(pt[2][0])[:200], site(b, pt[3]),
                    key="R-HTTPSHAPE|%s|parse-source" % fn)
+            # ... the whole of it: only reviewed pass-through adaptors between the body stream and the parser
+            chain_bad = []
+
+            def down(t):
+                if is_call(t, srcname):
+                    return True
+                if not is_call(t) or not t[2]:
+                    return False
+                nm = t[1].split("::")[-1]
+                for a in t[2]:
+                    if has_sub(a, lambda x: is_call(x, srcname)):
+                        if nm not in STREAM_ADAPTORS:
+                            chain_bad.append(t[1])
+                        return down(a)
+                return False
+            if oksrc:
+                down(pt[2][0])
+                run.ob("R-HTTPSHAPE", "%s: nothing between the response body and the parser shortens or alters the stream" % short, not chain_bad,
+                       "unreviewed adaptor(s) %s on the response stream (take / skip / chain would cut or alter the attributes or the document that follows them)" % chain_bad,
+                       site(b, pt[3]), key="R-HTTPSHAPE|%s|parse-source-adaptor|%s" % (fn, ",".join(chain_bad)))
             # result returned with its error
             r = p.ret
             core = r
@@ -226,6 +246,40 @@ def check_builder(run, F):
             run.ob("R-CONFIG-LIVE", "request_timeout stores Some(duration)", ok, tshow(v), site(b), key="R-CONFIG-LIVE|%srequest_timeout" % BUILDER)
 
 
+# pass-through adaptors accepted between the HTTP response body and the parser (each delivers every byte, in order)
+STREAM_ADAPTORS = {"new", "map_err", "into_async_read", "compat", "with_capacity", "from", "into", "boxed", "err_into", "into_reader", "bytes_stream"}
+
+
+def check_config_writers(run, F, rule="R-CONFIG-LIVE"):
+    """who-may-write the client configuration: the target uri is set by the constructor only; the other fields by their setters."""
+    from ..facts import show, unwrap, walk
+    allowed = {"ignore_tls_errors": ("ignore_tls_errors",), "request_timeout": ("request_timeout",), "uri": (), "headers": (), "ca_certs": ()}
+    B = "ipp::client::IppClientBuilder"
+    for path, body in F.hir.items():
+        if not path.startswith("ipp::client::") or "::tests::" in path:
+            continue
+        for n in walk(body["body"]):
+            if n.get("k") in ("assign", "assignop"):
+                l = unwrap(n["l"])
+                if l.get("k") == "field" and l["name"] in allowed and (unwrap(l["e"]).get("ty") or "").replace("&mut ", "").startswith(B):
+                    fn = path.split("::")[-1]
+                    run.ob(rule, "%s writes builder field %s" % (path.split("::", 2)[-1], l["name"]), fn in allowed[l["name"]],
+                           "assignment to the client's `%s` outside its setter: %s (the configured target / option would silently change)" % (l["name"], show(n)[:100]),
+                           site(body, n), key="%s|writer|%s|%s" % (rule, l["name"], path))
+            if n.get("k") == "struct" and (n.get("path") or "") == B and not path.endswith("::new"):
+                run.ob(rule, "%s rebuilds the client configuration" % path.split("::", 2)[-1], False, show(n)[:100], site(body, n), key="%s|rebuild|%s" % (rule, path))
+    nb = F.body(B + "::<T>::new")
+    if nb is not None:
+        r = paths_of(nb)[0].ret
+        ok = r[0] == "ctor" and isinstance(r[2], dict) and r[2].get("uri") == ("var", "uri")
+        run.ob(rule, "IppClientBuilder::new stores the target uri as given", ok, tshow(r)[:120], site(nb), key="%s|new|uri" % rule)
+    for acc in ("ipp::client::non_blocking::AsyncIppClient::uri", "ipp::client::blocking::IppClient::uri"):
+        ab = F.body(acc)
+        if ab is not None:
+            r = paths_of(ab)[0].ret
+            run.ob(rule, "%s returns the configured target" % acc.split("::", 2)[-1], cfg_field(r, "uri"), tshow(r)[:80], site(ab), key="%s|accessor|%s" % (rule, acc))
+
+
 def check(run, views, tier):
     run.explanation = (
         "R-CONFIG-LIVE / R-HTTPSHAPE over the symbolic paths of both clients' send() under each compiled configuration: "
@@ -238,9 +292,12 @@ def check(run, views, tier):
     run.not_decided = ["exactly one POST on the wire, header casing, chunked vs content-length (HTTP stack)",
                        "response framing / fragmentation / cut connections / timeouts actually firing (run-time behaviour with a live peer)",
                        "concurrent sends through one client (reqwest/ureq internals)"]
+    from ..cargorules import r_cargo
+    r_cargo(run)
     for cfg, crates in views.items():
         run.cfg = cfg
         F = crates["ipp"]
+        check_config_writers(run, F)
         done = 0
         if "async-client" in F.features:
             check_send(run, F, ASYNC, "async")
